@@ -57,7 +57,7 @@ class FakeVirt(object):
     def __getitem__(self, item):
         return self.data[item]
 
-BACKENDS = ('str', 'file', 'virt')
+BACKENDS = ('str', 'file', 'virt', 'bytearray')
 
 def open_stream(kind, image, off, eio_at=None, base=0):
     """Returns (stream, backing) via the real bin_stream factory.  base != 0
@@ -65,6 +65,8 @@ def open_stream(kind, image, off, eio_at=None, base=0):
     s = sut()
     if kind == 'str':
         return s.B.bin_stream(image, off), None
+    if kind == 'bytearray':
+        return s.B.bin_stream(bytearray(image), off), None      # a mutable byte buffer must behave like bytes
     if kind == 'file':
         f = FakeFile(image, eio_at)
         return s.B.bin_stream(f, off), f
